@@ -64,6 +64,10 @@ type SliceV struct {
 	Len *Term // BV64
 	Cap int
 	Nil bool
+	// symbolic geometry: when SOff != nil the absolute offset into B.Cells is
+	// SOff and the capacity SCap (both BV64); Off/Cap are then ignored.
+	SOff *Term
+	SCap *Term
 }
 
 type mapEntry struct {
